@@ -17,8 +17,11 @@
       length: drain). Replacing a character BY ANOTHER CONTROL CHARACTER (NAK->ACK, x->EOT ...) and a
       shortened length whose prefix happens to sum up are outside E4's detection and outside the
       model ([C18_nak_to_ack_refuted] shows why).
-    - A retries-exhausted send takes the link down (terminal state [Down]); re-establishment is
-      not modelled.
+    - A retries-exhausted send takes the link down: [Down] is terminal, the end takes no further
+      line step; re-establishment is not modelled. The CURRENT engine goes on answering the line
+      until the core's teardown reaches it and loses what it ACKs in that window (known finding
+      C18-ack-into-closing-generation; LineProofs.served_after_failure_refuted); the repair
+      fixes/C18-stop-engine-after-send-failed.diff makes this assumption true of the code.
     Blocks are abstract: (message token, index within the message, last flag); the receiver's
     assembler is the abstract image of the C17 assembler on in-sequence blocks of ours (duplicate
     record, expected index, first-block restart), without T4 and addressing, which C17 covers. *)
